@@ -541,6 +541,7 @@ RULES += [
 RULES += [
     ("C03.PRESTATE", "the state a level-2 program resumes from is the state before the abandoned command (roll-back of pre-execution)", p_c02.rule_rollback),
     ("C03.PRESIB", "pre-execution agrees with the interpreter command by command", p_c02.rule_sib),
+    ("C03.PRECAPTURE", "output captured during pre-execution is put back character by character on stacks 1/2; the residual program starts at the abandoned command", p_c02.rule_capture),
 ]
 
 
